@@ -113,3 +113,5 @@ reg(Spec(
     ],
     modelled=TRACKER_MODELLED + ["internal/common/genericsyncmap.go (one method = one atomic block)"],
 ))
+
+sshd("C06")
